@@ -301,6 +301,7 @@ func (ex *Exec) execInstr(fr *Frame, st *State, in ssa.Instruction) {
 		fr.regs[in] = &Value{T: in.Type(), C: []*Term{ex.refLit(0)}, P: &PtrInfo{Local: in, Root: t}}
 
 	case *ssa.Store:
+		ex.globalAccessObligations(fr, st, in.Addr, in)
 		p := ex.eval(fr, st, in.Addr)
 		v := ex.eval(fr, st, in.Val)
 		if len(v.C) > 0 {
@@ -584,6 +585,7 @@ func (ex *Exec) execUnOp(fr *Frame, st *State, in *ssa.UnOp) *Value {
 	tb := ex.tb
 	switch in.Op {
 	case token.MUL: // load
+		ex.globalAccessObligations(fr, st, in.X, in)
 		p := ex.eval(fr, st, in.X)
 		if g, ok := in.X.(*ssa.Global); ok {
 			if v := ex.loadGlobal(st, g); v != nil {
